@@ -11,10 +11,14 @@ for patterns printed from random event lists.
 Hypotheses used below:
 * `GoodNames evs`: a name written in the pattern is not empty and not all digits (the Go parser
   reads an all-digit name as a number), so no written name equals `strconv.Itoa k`;
-* for MaintainCaptureOrder / ECMAScript: `OrdClean evs` / `NoOrdNumbered`: no explicitly numbered
-  group.  Explicit numbers under MaintainCaptureOrder and numbers written with a leading zero are
-  where the real code is inconsistent (design.d/C17.md, suspected defects); the `example`s at the end
-  exhibit these inconsistencies in the model.
+* `NoOrdNumbered cfg evs`, only for `name_number_inverse`: no explicitly numbered group under
+  MaintainCaptureOrder / ECMAScript.  There `(?<k>…)` is booked in pattern order under the *name*
+  "k" (fix 4579bd8), which may coincide with the automatic name of another slot — `(a)(?<1>b)`
+  lists the names 0, 1, 1 — so names and numbers cannot be inverse to each other; everything else
+  (numbering, alignment, remap, references) holds there too.
+
+The model follows /repo after the fixes 2bf8733, 9af4686, 4181360, 14b4ba0, 4579bd8; the `example`s at
+the end show the fixed behaviour of the former findings F1–F6 (design.d/C17.md).
 -/
 import RegexVerif.Lemmas.Groups
 
@@ -80,16 +84,22 @@ example : (assign [.named "y", .unnamed, .numbered 3, .named "x", .unnamed, .nam
 
 /-- **C17, numbering rule (pattern order).** With MaintainCaptureOrder or ECMAScript the numbers
     are handed out in one pass over the pattern: every unnamed group and every first occurrence of
-    a name takes the next number, a repeated name shares the number of its first occurrence
-    (`orderSpec`).  The parser's two passes (pre-scan, main parse) agree on this. -/
+    a name takes the next number, a repeated name shares the number of its first occurrence; an
+    explicitly numbered group `(?<k>…)` counts as a group named "k" (`orderSpec`).  The parser's
+    two passes (pre-scan, main parse) agree on this, for every pattern that parses. -/
 theorem order_numbering_rule {evs : List Event} {cfg : Cfg} {m : Maps} (h : assign evs cfg = some m)
-    (ho : cfg.ord = true) (hcl : OrdClean evs) (hg : GoodNames evs) :
+    (ho : cfg.ord = true) :
     m.evNums = orderSpec cfg.explicitCapture evs [] 1 :=
-  (assign_ord_spec h ho hcl hg).1
+  (assign_ord_spec h ho).1
 
 /-- `(a)(?<x>b)(c)(?<x>d)(?<y>e)` under MaintainCaptureOrder: 1 2 3 2 4 -/
 example : (assign [.unnamed, .named "x", .unnamed, .named "x", .named "y"] { mco := true }).map (·.evNums) =
     some [some 1, some 2, some 3, some 2, some 4] := by decide
+
+/-- `(?<7>a)(b)(?<07>c)(?<x>d)` under MaintainCaptureOrder: 1 2 1 3 -/
+example : (assign [.numbered 7, .unnamed, .numbered0 7, .named "x"] { mco := true }).map
+    (fun m => (m.evNums, getGroupNames m)) = some ([some 1, some 2, some 1, some 3], ["0", "7", "2", "x"]) := by
+  decide
 
 /-! ### names ↔ numbers -/
 
@@ -97,12 +107,12 @@ example : (assign [.unnamed, .named "x", .unnamed, .named "x", .named "y"] { mco
     length (`capsize`), the numbers are strictly ascending, and `GetGroupNames()[i]` is
     `GroupNameFromNumber(GetGroupNumbers()[i])`. -/
 theorem names_numbers_aligned {evs : List Event} {cfg : Cfg} {m : Maps} (h : assign evs cfg = some m)
-    (hg : GoodNames evs) (hno : NoOrdNumbered cfg evs) :
+    (hg : GoodNames evs) :
     (getGroupNames m).length = m.capsize ∧ (getGroupNumbers m).length = m.capsize ∧
     (getGroupNumbers m).Pairwise (· < ·) ∧
     ∀ (i n : Nat), (getGroupNumbers m)[i]? = some n →
       (getGroupNames m)[i]? = some (groupNameFromNumber m n) := by
-  have hm := (assign_inv h hg hno).1
+  have hm := (assign_inv h hg).1
   exact ⟨hm.names_len, hm.used.2.1, hm.used.1, fun i n hi => hm.aligned hi⟩
 
 /-- **C17, the lookups are inverse.** For every listed number `n` whose name is not empty (outside
@@ -115,13 +125,13 @@ theorem name_number_inverse {evs : List Event} {cfg : Cfg} {m : Maps} (h : assig
     (∀ s ∈ getGroupNames m, s ≠ "" →
         ∃ n, groupNumberFromName m s = some n ∧ n ∈ getGroupNumbers m ∧ groupNameFromNumber m n = s) ∧
     (cfg.ecma = false → "" ∉ getGroupNames m) := by
-  have hm := (assign_inv h hg hno).1
+  have hm := (assign_inv h hg).1
   have hecma : m.ecma = cfg.ecma := by obtain ⟨_, _, _, he, _⟩ := assign_tables h; exact he
   refine ⟨?_, ?_, ?_⟩
   · intro n hn hne
     obtain ⟨i, hi⟩ := List.mem_iff_getElem?.mp hn
     have ha := hm.aligned hi
-    rw [hm.number_of_listed_name ha hne, hi]
+    rw [hm.number_of_listed_name hno ha hne, hi]
   · intro s hs hne
     obtain ⟨i, hi⟩ := List.mem_iff_getElem?.mp hs
     have hlt : i < (getGroupNumbers m).length := by
@@ -129,7 +139,7 @@ theorem name_number_inverse {evs : List Event} {cfg : Cfg} {m : Maps} (h : assig
       rw [hm.names_len] at this; rw [hm.used.2.1]; exact this
     have hn : (getGroupNumbers m)[i]? = some (getGroupNumbers m)[i] := List.getElem?_eq_getElem hlt
     refine ⟨(getGroupNumbers m)[i], ?_, List.getElem_mem hlt, ?_⟩
-    · rw [hm.number_of_listed_name hi hne, hn]
+    · rw [hm.number_of_listed_name hno hi hne, hn]
     · have := hm.aligned hn
       rw [hi] at this; injection this with this; exact this.symm
   · intro he
@@ -138,7 +148,7 @@ theorem name_number_inverse {evs : List Event} {cfg : Cfg} {m : Maps} (h : assig
     | none =>
       simp only [List.mem_map, not_exists, not_and]
       intro x _ hx; exact itoa_ne_empty x hx
-    | some cl => exact hm.t.nonempty (by rw [hecma]; exact he) cl hc
+    | some cl => exact hm.t.nonempty hno (by rw [hecma]; exact he) cl hc
 
 /-- sparse numbers, a duplicate name, a digit-like name: `(a)(?<x1>b)(?<7>c)(?<x1>d)` -/
 example : (assign [.unnamed, .named "x1", .numbered 7, .named "x1"] {}).map
@@ -153,12 +163,12 @@ example : (assign [.unnamed, .named "x1", .numbered 7, .named "x1"] {}).map
     (`GetGroupNumbers`, which are exactly the numbers the parser's `isCaptureSlot` accepts) onto the
     slots `0 … capsize-1`, and it is monotone: the `i`-th number in ascending order gets slot `i`. -/
 theorem dense_remap_bijective {evs : List Event} {cfg : Cfg} {m : Maps} (h : assign evs cfg = some m)
-    (hg : GoodNames evs) (hno : NoOrdNumbered cfg evs) :
+    (hg : GoodNames evs) :
     (∀ n, n ∈ getGroupNumbers m ↔ n ∈ m.caps) ∧
     (∀ n ∈ getGroupNumbers m, ∃ s, slotOf m n = some s ∧ s < m.capsize) ∧
     (∀ a ∈ getGroupNumbers m, ∀ b ∈ getGroupNumbers m, slotOf m a = slotOf m b → a = b) ∧
     (∀ s, s < m.capsize → ∃ n ∈ getGroupNumbers m, slotOf m n = some s) := by
-  have hm := (assign_inv h hg hno).1
+  have hm := (assign_inv h hg).1
   have hlen := hm.used.2.1
   refine ⟨hm.used.2.2, ?_, ?_, ?_⟩
   · intro n hn
@@ -175,49 +185,78 @@ theorem dense_remap_bijective {evs : List Event} {cfg : Cfg} {m : Maps} (h : ass
     exact ⟨(getGroupNumbers m)[s], List.getElem_mem hlt, hm.slotOf_getElem (List.getElem?_eq_getElem hlt)⟩
 
 /-- **C17, order of `Match.Groups()`.** `Groups()[i]` is the dense slot `i`; the number whose captures
-    live there is `GetGroupNumbers()[i]`, and `GroupByNumber` of that number returns slot `i`. -/
+    live there is `GetGroupNumbers()[i]`, `GroupByNumber` of that number returns slot `i`, and
+    `Groups()[i].Name` is `GetGroupNames()[i]` (for `i ≥ 1`; group 0 is named by `newMatch`). -/
 theorem groups_order_eq_numbers {evs : List Event} {cfg : Cfg} {m : Maps} (h : assign evs cfg = some m)
-    (hg : GoodNames evs) (hno : NoOrdNumbered cfg evs) (i n : Nat) (hi : (getGroupNumbers m)[i]? = some n) :
-    slotOf m n = some i ∧ groupByNumberSlot m n = some i := by
-  have hm := (assign_inv h hg hno).1
+    (hg : GoodNames evs) (i n : Nat) (hi : (getGroupNumbers m)[i]? = some n) :
+    slotOf m n = some i ∧ groupByNumberSlot m n = some i ∧
+    (1 ≤ i → (getGroupNames m)[i]? = some (groupsName m i)) := by
+  have hm := (assign_inv h hg).1
   have hs := hm.slotOf_getElem hi
   have hlt : i < m.capsize := by
     have := (List.getElem?_eq_some_iff.mp hi).1; rw [hm.used.2.1] at this; exact this
-  refine ⟨hs, ?_⟩
+  refine ⟨hs, ?_, ?_⟩
+  · unfold groupByNumberSlot
+    unfold slotOf at hs
+    cases hc : m.codeCaps with
+    | none => rw [hc] at hs; injection hs with hs; subst hs; simp [hlt]
+    | some l => rw [hc] at hs; simpa using hs
+  · intro h1
+    have hne : ¬ i = 0 := by omega
+    have hlen := hm.names_len
+    unfold groupsName groupNameFromSlot
+    simp only [hne, if_false]
+    unfold getGroupNames at hlen ⊢
+    cases hc : m.caplist with
+    | none => simp [hlt]
+    | some cl =>
+      rw [hc] at hlen
+      simp only at hlen ⊢
+      rw [List.getD_eq_getElem?_getD, List.getElem?_eq_getElem (by omega)]; simp
+
+/-- **C17, numbers that are no groups.** `GroupByNumber(n)` is nil for every `n` that is not one of
+    `GetGroupNumbers()`, also when the numbers are sparse. -/
+theorem group_by_unknown_number {evs : List Event} {cfg : Cfg} {m : Maps} (h : assign evs cfg = some m)
+    (hg : GoodNames evs) (n : Nat) (hn : n ∉ getGroupNumbers m) : groupByNumberSlot m n = none := by
+  have hm := (assign_inv h hg).1
   unfold groupByNumberSlot
-  unfold slotOf at hs
+  unfold getGroupNumbers at hn
   cases hc : m.codeCaps with
-  | none => rw [hc] at hs; injection hs with hs; subst hs; simp [hlt]
-  | some l => rw [hc] at hs; simp only at hs; simp [hs, hlt]
+  | none => rw [hc] at hn; simp at hn; simp; omega
+  | some l => rw [hc] at hn; simp only at hn ⊢; exact idxOf?_eq_none.mpr hn
 
 example : (assign [.numbered 5, .unnamed, .numbered 3] {}).map
     (fun m => (getGroupNumbers m, (getGroupNumbers m).map (slotOf m), (getGroupNumbers m).map (groupByNumberSlot m), m.capsize)) =
     some ([0, 1, 3, 5], [some 0, some 1, some 2, some 3], [some 0, some 1, some 2, some 3], 4) := by decide
 
+example : (assign [.numbered 5, .unnamed, .numbered 3] {}).map
+    (fun m => ([2, 4, 6].map (groupByNumberSlot m), (List.range m.capsize).map (groupsName m), getGroupNames m)) =
+    some ([none, none, none], ["0", "1", "3", "5"], ["0", "1", "3", "5"]) := by decide
+
 /-! ### references -/
 
-/-- every group of the pattern captures into a number the tables list -/
+/-- every group of the pattern captures into a number the tables list (before fix 4579bd8 this failed
+    for `(?<01>a)(b)` under MaintainCaptureOrder, where the engine then indexed past `capsize`) -/
 theorem group_number_listed {evs : List Event} {cfg : Cfg} {m : Maps} (h : assign evs cfg = some m)
-    (hg : GoodNames evs) (hcl : cfg.ord = true → OrdClean evs) (i n : Nat) (hi : m.evNums[i]? = some (some n)) :
+    (hg : GoodNames evs) (i n : Nat) (hi : m.evNums[i]? = some (some n)) :
     n ∈ m.caps := by
   cases ho : cfg.ord with
   | false => exact evNums_mem_caps h ho hg i n hi
-  | true => exact (assign_ord_spec h ho (hcl ho) hg).2 i n hi
+  | true => exact (assign_ord_spec h ho).2 i n hi
 
 /-- **C17, backreferences.** If the `i`-th group of the pattern captures into number `n`, then `\n`
     (and `\k<n>`) compiles to a reference to the very slot that group writes; if the group is written
     with the name `s`, so does `\k<s>` / `(?P=s)`; and `GroupByNumber(n)` / `GroupByName(s)` read
     that slot. -/
 theorem backref_same_slot {evs : List Event} {cfg : Cfg} {m : Maps} (h : assign evs cfg = some m)
-    (hg : GoodNames evs) (hno : NoOrdNumbered cfg evs) (hcl : cfg.ord = true → OrdClean evs)
-    (i n : Nat) (hi : m.evNums[i]? = some (some n)) :
+    (hg : GoodNames evs) (i n : Nat) (hi : m.evNums[i]? = some (some n)) :
     (∃ s, evSlot m i = some s ∧ s < m.capsize ∧ backrefSlot m n = some s ∧ groupByNumberSlot m n = some s) ∧
     (∀ nm, evs[i]? = some (.named nm) → backrefNameSlot m nm = evSlot m i ∧ groupByNameSlot m nm = evSlot m i) := by
-  have hm := (assign_inv h hg hno).1
-  have hmem : n ∈ m.caps := group_number_listed h hg hcl i n hi
+  have hm := (assign_inv h hg).1
+  have hmem : n ∈ m.caps := group_number_listed h hg i n hi
   have hn : n ∈ getGroupNumbers m := (hm.used.2.2 n).mpr hmem
   obtain ⟨j, hj⟩ := List.mem_iff_getElem?.mp hn
-  obtain ⟨hs1, hs2⟩ := groups_order_eq_numbers h hg hno j n hj
+  obtain ⟨hs1, hs2, _⟩ := groups_order_eq_numbers h hg j n hj
   have hjlt : j < m.capsize := by
     have := (List.getElem?_eq_some_iff.mp hj).1; rw [hm.used.2.1] at this; exact this
   have hev : evSlot m i = some j := by unfold evSlot; simp [hi, hs1]
@@ -241,10 +280,10 @@ theorem backref_same_slot {evs : List Event} {cfg : Cfg} {m : Maps} (h : assign 
     in the pattern resolve (`scanDollar`, then `caps[slot]` in `NewReplacerData`) to the same dense
     slot as the backreferences `\n` and `\k<s>`. -/
 theorem repl_ref_same_slot {evs : List Event} {cfg : Cfg} {m : Maps} (h : assign evs cfg = some m)
-    (hg : GoodNames evs) (hno : NoOrdNumbered cfg evs) :
+    (hg : GoodNames evs) :
     (∀ n ∈ getGroupNumbers m, replSlot m n = backrefSlot m n ∧ (replSlot m n).isSome) ∧
     (∀ nm, Event.named nm ∈ evs → replNameSlot m nm = backrefNameSlot m nm ∧ (replNameSlot m nm).isSome) := by
-  obtain ⟨hm, hnames⟩ := assign_inv h hg hno
+  obtain ⟨hm, hnames⟩ := assign_inv h hg
   constructor
   · intro n hn
     have hmem : n ∈ m.caps := (hm.used.2.2 n).mp hn
@@ -279,29 +318,44 @@ example : (assign [.unnamed, .named "x", .numbered 7] {}).map
                evSlot m 1, backrefNameSlot m "x", replNameSlot m "x", groupByNameSlot m "x"]) =
     some [some 3, some 3, some 3, some 3, some 2, some 2, some 2, some 2] := by decide
 
-/-! ### the model exhibits the suspected defects of the real code (design.d/C17.md) -/
+/-! ### the former findings F1–F6 (design.d/C17.md), now fixed in /repo -/
 
-/-- F1: with sparse numbers `Match.Groups()[3].Name` is `""` although the group is named "7" -/
+/-- F1 (2bf8733): with sparse numbers `Match.Groups()[i].Name` is `GetGroupNames()[i]`
+    (was: `["0", "1", "x", ""]`, the dense slot was looked up as a group number) -/
 example : (assign [.unnamed, .named "x", .numbered 7] {}).map
     (fun m => (getGroupNames m, (List.range m.capsize).map (groupsName m))) =
-    some (["0", "1", "x", "7"], ["0", "1", "x", ""]) := by decide
+    some (["0", "1", "x", "7"], ["0", "1", "x", "7"]) := by decide
 
-/-- F2: `GroupByNumber(3)` returns the slot of group 7 although 3 is not a group number -/
+/-- F2 (9af4686): `GroupByNumber(3)` is nil when 3 is not a group number (was: the slot of group 7) -/
 example : (assign [.unnamed, .named "x", .numbered 7] {}).map (fun m => (getGroupNumbers m, groupByNumberSlot m 3)) =
-    some ([0, 1, 2, 7], some 3) := by decide
+    some ([0, 1, 2, 7], none) := by decide
 
-/-- F3: `(a)(?<1>b)` under MaintainCaptureOrder: both groups capture into number 1, the name "1" maps to 2 -/
+/-- F3 (4579bd8): `(a)(?<1>b)` under MaintainCaptureOrder: each group captures into its own slot, the
+    second one is booked under the name "1" (was: both captured into 1, slot 2 never captured).
+    The name "1" is now listed twice — automatic name of slot 1, written name of slot 2 — and
+    `GroupNumberFromName("1")` answers 2: this is why `name_number_inverse` keeps `NoOrdNumbered`. -/
 example : (assign [.unnamed, .numbered 1] { mco := true }).map
-    (fun m => (m.evNums, getGroupNames m, groupNumberFromName m (groupNameFromNumber m 1))) =
-    some ([some 1, some 1], ["0", "1", "1"], some 2) := by decide
+    (fun m => (m.evNums, getGroupNames m, groupNumberFromName m "1", evSlot m 0, evSlot m 1)) =
+    some ([some 1, some 2], ["0", "1", "1"], some 2, some 1, some 2) := by decide
 
-/-- F5: `(?<x>a)(?<01>b)`: the leading-zero number is not reserved, `x` gets number 1 as well -/
+/-- F3 (4579bd8): `(?<5>a)` alone compiles under MaintainCaptureOrder: slot 1, named "5" (was: rejected) -/
+example : (assign [.numbered 5] { mco := true }).map (fun m => (m.evNums, getGroupNames m)) =
+    some ([some 1], ["0", "5"]) := by decide
+
+/-- F4 (4181360): on a pattern without named groups only the canonical decimal strings of the group
+    numbers are names (was: "" and "00" gave 0, "01" gave 1) -/
+example : (assign [.unnamed, .unnamed] {}).map
+    (fun m => ["", "00", "01", "0", "1", "2", "3", "1x"].map (groupNumberFromName m)) =
+    some [none, none, none, some 0, some 1, some 2, none, none] := by decide
+
+/-- F5 (14b4ba0): `(?<x>a)(?<01>b)`: the number written with a leading zero is reserved, `x` gets 2
+    (was: both groups captured into 1) -/
 example : (assign [.named "x", .numbered0 1] {}).map (fun m => (m.evNums, getGroupNames m)) =
-    some ([some 1, some 1], ["0", "x"]) := by decide
+    some ([some 2, some 1], ["0", "1", "x"]) := by decide
 
-/-- F6: `(?<01>a)(b)` under MaintainCaptureOrder: the second group captures into number 2,
-    which no table knows (the engine then indexes past `capsize`) -/
+/-- F6 (14b4ba0 + 4579bd8): `(?<01>a)(b)` under MaintainCaptureOrder: slots 1 and 2, both listed
+    (was: the second group captured into 2 with `capsize` 2 — an index out of range at match time) -/
 example : (assign [.numbered0 1, .unnamed] { mco := true }).map (fun m => (m.evNums, getGroupNumbers m, m.capsize)) =
-    some ([some 1, some 2], [0, 1], 2) := by decide
+    some ([some 1, some 2], [0, 1, 2], 3) := by decide
 
 end RegexVerif.Props.C17
